@@ -241,4 +241,189 @@ theorem tail_complete (k : Machine.Kind) (st : Machine.St) (h : Machine.document
     (`Generated/Interp.lean`, regenerated on every run) -/
 theorem source_fill_ok : C14.sourceVariant.guard = true ∧ C14.sourceVariant.op = .or := by decide
 
+/-! ## 6. The excluded shape: refinement of a map that is no longer on the sample grid (C06-F5) -/
+
+namespace Counterexample
+
+/-- 3 × 3 valid pixels carrying samples of `[-1, 1]` (step 1/2): 1 everywhere, 1/2 in the centre -/
+def m0 : DMap :=
+  { rows := 3, cols := 3, disp := fun r c => if r = 1 ∧ c = 1 then .num (1 / 2) else .num 1, flag := fun _ _ => 0 }
+
+/-- `vfit`, dissimilarity measure, subpix 2, cost volume over `[-1, 1]`, the cost row of C06's
+    `offgrid_past_end_counterexample` at every pixel, every pixel interval = the global one -/
+def D : RefineData :=
+  { P := { method := .vfit, isMax := false, subpix := 2, dmin := -1, dmax := 1 },
+    costs := fun _ _ => [.num 9, .num 9, .num 5, .num 1, .num 1], pmin := fun _ _ => -1, pmax := fun _ _ => 1 }
+
+def W : Filter.Weights := { spatial := fun _ _ => 1, range := fun _ => 1 }
+
+/-- a bilateral filter, then refinement: a tail the machine accepts -/
+def steps : List Step := [.bilateral (Generated.Blocks.bilateral 3) W 3, .refine D]
+
+theorem weightsOK : WeightsOK W 3 := ⟨fun _ _ => by simp [W], fun _ => by simp [W], by simp [W]⟩
+
+/--
+  **The full-strength composition statement is false** (finding C06-F5 at pipeline level).  The tail
+  `filter; refinement` is accepted by the machine, the parameters of both steps are sound, the map the disparity step
+  left is on the sample grid, ready for refinement and inside `[-1, 1]`; the filter keeps it inside `[-1, 1]`
+  (centre: 17/18) but off the grid, so that the map entering refinement is not `refineReadyB`; refinement then moves
+  the centre pixel — still flagged valid — to 43/36 > 1 = `dmax`.
+-/
+theorem filter_then_refine_counterexample :
+    acceptedFrom .dispMap (steps.map Step.kind) = true
+    ∧ (∀ s ∈ steps, s.paramsOK m0)
+    ∧ BoundedValid (-1) 1 m0 ∧ OneFlag m0 ∧ refineReadyB D m0 = true
+    ∧ refineReadyB D (bilateralStep (Generated.Blocks.bilateral 3) W 3 m0) = false
+    ∧ (runSteps steps m0).map (fun m' => (m'.flag 1 1, m'.disp 1 1)) = some (0, .num (43 / 36))
+    ∧ ∃ m', runSteps steps m0 = some m' ∧ ¬ BoundedValid (-1) 1 m' := by
+  have hrun : (runSteps steps m0).map (fun m' => (m'.flag 1 1, m'.disp 1 1)) = some (0, .num (43 / 36)) := by
+    decide +kernel
+  refine ⟨by decide, ?_, (boundedValidB_iff _ _ _).1 (by decide +kernel), (oneFlag_iff _).1 (by decide +kernel),
+    by decide +kernel, by decide +kernel, hrun, ?_⟩
+  · intro s hs
+    simp only [steps, List.mem_cons, List.not_mem_nil, or_false] at hs
+    rcases hs with rfl | rfl
+    · exact ⟨rfl, rfl, by decide, by decide, by decide, weightsOK⟩
+    · trivial
+  · cases hm : runSteps steps m0 with
+    | none => rw [hm] at hrun; cases hrun
+    | some m' =>
+      rw [hm] at hrun
+      simp only [Option.map_some, Option.some.injEq, Prod.mk.injEq] at hrun
+      refine ⟨m', rfl, ?_⟩
+      intro hb
+      have hdims : m'.rows = 3 ∧ m'.cols = 3 := by
+        have : (runSteps steps m0).map (fun m' => (m'.rows, m'.cols)) = some (3, 3) := by decide +kernel
+        rw [hm] at this
+        simpa using this
+      obtain ⟨q, hq, -, hle⟩ := hb 1 1 (by omega) (by omega) (by rw [hrun.1]; decide)
+      rw [hrun.2] at hq
+      cases hq
+      norm_num at hle
+
+end Counterexample
+
+/-! ## 7. Non-vacuity: concrete non-trivial inputs satisfy the hypotheses -/
+
+namespace Example
+
+def P : Refinement.Params := { method := .vfit, isMax := false, subpix := 2, dmin := -1, dmax := 1 }
+
+/-- 3 × 4 map as winner-takes-all leaves it: samples of `[-1, 1]` at step 1/2; pixel (0,3) invalid (bit 6) with NaN;
+    pixel (1,0) carries information bit 2; pixel (2,0) has the narrower interval `[0, 1]` -/
+def m0 : DMap :=
+  { rows := 3, cols := 4,
+    disp := fun r c =>
+      if r = 0 ∧ c = 3 then .nan else if r = 2 ∧ c = 0 then .num (1 / 2)
+      else if (r + c) % 3 = 0 then .num 0 else if (r + c) % 3 = 1 then .num (-1 / 2) else .num (1 / 2),
+    flag := fun r c => if r = 0 ∧ c = 3 then 64 else if r = 1 ∧ c = 0 then 4 else 0 }
+
+def D : RefineData :=
+  { P := P,
+    costs := fun r c =>
+      if r = 2 ∧ c = 0 then [.nan, .nan, .num 6, .num 2, .num 3]
+      else if (r + c) % 3 = 0 then [.num 7, .num 4, .num 1, .num 2, .num 5]
+      else if (r + c) % 3 = 1 then [.num 5, .num 1, .num 3, .num 6, .num 8]
+      else [.num 9, .num 7, .num 4, .num 2, .num 3],
+    pmin := fun r c => if r = 2 ∧ c = 0 then 0 else -1,
+    pmax := fun _ _ => 1 }
+
+def W : Filter.Weights :=
+  { spatial := fun a b => if a = 1 ∧ b = 1 then 2 else 1, range := fun d => if d = 0 then 1 else 1 / 2 }
+
+theorem weightsOK : WeightsOK W 3 := by
+  refine ⟨fun a b => ?_, fun d => ?_, ?_⟩
+  · simp only [W]; split <;> norm_num
+  · simp only [W]; split <;> norm_num
+  · simp [W]
+
+def other : Grid Val :=
+  [[.num 0, .num 1, .num 0, .num 0], [.num (1 / 2), .num 0, .num (-1 / 2), .num 2], [.num 0, .num 0, .nan, .num 0]]
+
+def cc : CrossCheck.Params := { threshold := 1, dmin := -1, dmax := 1, offset := 0 }
+
+/-- refinement, median, validation with mc-cnn filling, bilateral, validation with sgm filling, multiscale -/
+def tail : List Step :=
+  [.median (Generated.Blocks.median 3) 3,
+   .validation .asIs cc other (some ⟨C14.sourceVariant, .mccnn⟩),
+   .bilateral (Generated.Blocks.bilateral 3) W 3,
+   .validation .asIs cc other (some ⟨C14.sourceVariant, .sgm⟩),
+   .multiscale]
+
+theorem tail_ok : ∀ s ∈ tail, s.isRefine = false ∧ s.paramsOK m0 := by
+  intro s hs
+  simp only [tail, List.mem_cons, List.not_mem_nil, or_false] at hs
+  rcases hs with rfl | rfl | rfl | rfl | rfl
+  · exact ⟨rfl, rfl, rfl, by decide, by decide, by decide⟩
+  · exact ⟨rfl, by decide, fun f hf => by cases hf; exact source_fill_ok⟩
+  · exact ⟨rfl, rfl, rfl, by decide, by decide, by decide, weightsOK⟩
+  · exact ⟨rfl, by decide, fun f hf => by cases hf; exact source_fill_ok⟩
+  · exact ⟨rfl, trivial⟩
+
+/-- the hypotheses of `final_in_global_interval_partial` hold of this input … -/
+theorem legal : Legal (-1) 1 (.refine D :: tail) m0 :=
+  legal_refine_first (-1) 1 D tail m0 (by decide +kernel) (by norm_num [D, P]) (by norm_num [D, P]) tail_ok
+
+example : BoundedValid (-1) 1 m0 := (boundedValidB_iff _ _ _).1 (by decide +kernel)
+example : OneFlag m0 := (oneFlag_iff _).1 (by decide +kernel)
+
+/-- … the run returns, pixels are refined off the grid (1/6), occlusions are raised and filled (flag 16), … -/
+example : (runSteps (.refine D :: tail) m0).map (fun m' => (m'.disp 0 0, m'.flag 1 3, m'.disp 1 3, m'.disp 1 1))
+    = some (.num (1 / 6), 16, .num (5 / 8), .num (41 / 256)) := by decide +kernel
+
+/-- … and the theorem applies -/
+example : ∀ m', runSteps (.refine D :: tail) m0 = some m' → BoundedValid (-1) 1 m' := fun m' h =>
+  final_in_global_interval_partial (-1) 1 _ m0 m' legal ((boundedValidB_iff _ _ _).1 (by decide +kernel))
+    ((oneFlag_iff _).1 (by decide +kernel)) h
+
+/-! a whole run: matching cost (sad, window 1, subpix 2, per-pixel grids, one nodata pixel), winner-takes-all,
+    refinement, median filter, validation with filling -/
+
+def noMask : MC.Mask := { present := false, code := fun _ _ => 0, valid := 0, nodata := 1 }
+def lMask : MC.Mask := { present := true, code := fun r c => if r = 1 ∧ c = 2 then 1 else 0, valid := 0, nodata := 1 }
+
+def x : MC.Input where
+  meas := .sad
+  w := 1
+  sp := 2
+  L := { rows := 3, cols := 4, px := fun r c => ((3 * c + r * r : Int) : Rat) }
+  R := { rows := 3, cols := 4, px := fun r c => ((3 * c + r * r + 2 : Int) : Rat) }
+  mL := lMask
+  mR := noMask
+  dminG := fun _ c => if c = 0 then 0 else -1
+  dmaxG := fun _ _ => 1
+
+/-- the flag words of the matching-cost step: nodata pixel (bit 0), incomplete range in the last column (bit 2) -/
+def flags : Nat → Nat → Nat := fun r c => if r = 1 ∧ c = 2 then 1 else if c = 3 then 4 else 0
+
+def valOf : MC.Cell → Val
+  | .num q => .num q
+  | _ => .nan
+
+def runTail : List Step :=
+  [.median (Generated.Blocks.median 3) 3, .validation .asIs cc other (some ⟨C14.sourceVariant, .sgm⟩)]
+
+theorem gmin_eq : MC.gridMin x.dminG x.L.rows x.L.cols = -1 := by decide +kernel
+theorem gmax_eq : MC.gridMax x.dmaxG x.L.rows x.L.cols = 1 := by decide +kernel
+
+example : ∀ m', runSteps (.refine (refineDataOf x valOf .vfit false {}) :: runTail) (wtaMap x IntervalWta.numLt flags .nan) = some m' →
+    BoundedValid (gminQ x) (gmaxQ x) m' := fun m' h =>
+  single_scale_refine_first x IntervalWta.numLt flags .nan valOf .vfit false {} runTail m' (by decide)
+    (by rw [gmin_eq, gmax_eq]; decide) rfl (flagsCover_of_B _ _ _ (by decide +kernel))
+    (fun r c _ _ => Or.inr (by simp only [flags]; split <;> [rfl; (split <;> rfl)]))
+    ((oneFlag_iff _).1 (by decide +kernel))
+    (by
+      intro s hs
+      simp only [runTail, List.mem_cons, List.not_mem_nil, or_false] at hs
+      rcases hs with rfl | rfl
+      · exact ⟨rfl, rfl, rfl, by decide, by decide, by decide⟩
+      · exact ⟨rfl, by decide, fun f hf => by cases hf; exact source_fill_ok⟩)
+    h
+
+/-- the run returns; the winner of pixel (0,1) (sample -1/2) is refined to -2/3; the nodata pixel stays invalid -/
+example : (runSteps (.refine (refineDataOf x valOf .vfit false {}) :: runTail) (wtaMap x IntervalWta.numLt flags .nan)).map
+    (fun m' => (m'.disp 0 1, m'.flag 1 2)) = some (.num (-2 / 3), 1) := by decide +kernel
+
+end Example
+
 end Pandora.C09P
